@@ -226,6 +226,7 @@ contract(IP + '_propagate_callable_skips',
 # index cross references: closure / destroy / length indices name existing parameters or fields
 contract('giscanner.ast.Callable.get_parameter_index',
          params={'self': 'Callable', 'name': 'str?'}, returns='int', ghost={'J': 'int'}, props=('C05', 'C01'),
+         pure_keys=['self', 'name'],
          raises={'ValueError': 'implies(0 <= J and J < len(self.parameters), self.parameters[J].argname != name)'},
          loops={1: {'invariant': ['implies(0 <= J and J < I1, self.parameters[J].argname != name)'], 'modifies': []}},
          ensures={
@@ -235,6 +236,7 @@ contract('giscanner.ast.Callable.get_parameter_index',
          })
 contract('giscanner.ast.Compound.get_field_index',
          params={'self': 'Compound', 'name': 'str?'}, returns='int', ghost={'J': 'int'}, props=('C05', 'C01'),
+         pure_keys=['self', 'name'],
          raises={'ValueError': 'implies(0 <= J and J < len(self.fields), self.fields[J].name != name)'},
          loops={1: {'invariant': ['implies(0 <= J and J < I1, self.fields[J].name != name)'], 'modifies': []}},
          ensures={
